@@ -46,6 +46,7 @@ def bounds(tier):
     A, Bmax, D = PARAMS[tier]
     A2, B2, D2 = PARAMS2[tier]
     return {"live arrays": A, "bins per array": Bmax, "depth": D, "items": VAL, "managers": ["BinnerKeepingSums", "BinnerKeepingContents"],
+            "bulk growth": "1..100 empty bins added at once to arrays of 0, 1, 3, 10 bins, then add / add-empty / remove / add-empty again, every step against the model",
             "wide arrays": f"arrays of {list(WIDE_SIZES[tier])} bins filled by additions to every rotation / reversal / neighbour 3-cycle / riffle / tie pattern of sums, then sort, copy, add, remove, add-empty in short combinations, every step against the model",
             "variants": f"items as freshly built (name, value) records, and item b worth 2**24+1: {A2} live arrays, {B2} bins, depth {D2}"}
 
@@ -402,6 +403,18 @@ def wide(arg):
                 h.append(op)
                 if r is None:
                     break
+    # many empty bins added at once to a small array (a growth policy that doubles, or grows in fixed blocks, must still
+    # deliver the requested number), then the last bin is used
+    if nb == WIDE_SIZES["quick"][0]:
+        for nb0 in (0, 1, 3, 10):
+            for n in (1, 2, 13, 14, 20, 30, 40, 100):
+                h = [("new", nb0)] + [("add", 0, "a", i) for i in range(nb0)]
+                for op in [("add_empty", 0, n), ("add", 0, "b", nb0 + n - 1), ("add_empty", 0, 1), ("remove", 0, n), ("add_empty", 0, n + 3), ("add", 0, "a", -1)]:
+                    r = _step_checked(acc, kind, h, op)
+                    h.append(op)
+                    if r is None:
+                        break
+                acc.point(nontrivial=True)
     acc.sample({"manager": kind, "bins": nb, "patterns": len(_wide_patterns(nb))})
     return acc.result()
 
